@@ -206,6 +206,40 @@ class RandomMk(_Mk):
         return v
 
 
+class ReplayMk(object):
+    """second construction of the same inputs: hands out the values already created under the same names"""
+
+    def __init__(self, mk):
+        self.mk = mk
+        self.mode = mk.mode
+        self.values = mk.values
+        self.sp = getattr(mk, "sp", None)
+
+    def _again(self, name):
+        v = self.mk.values[name]
+        if self.mk.mode == "sym":
+            return v[1]
+        return v
+
+    def seq(self, name, n, alphabet="ACGT", maxlen=None):
+        return self._again(name)
+
+    def track(self, name, n, maxlen=None, lo=None, hi=None):
+        return self._again(name)
+
+    def bool(self, name):
+        return self._again(name)
+
+    def int(self, name, lo=None, hi=None):
+        return self._again(name)
+
+    def pick(self, name, k):
+        v = self._again(name)
+        if self.mk.mode == "sym":
+            return self.mk.sp.realize(v)
+        return v
+
+
 # ------------------------------------------------------------------------------------------------
 
 
